@@ -158,16 +158,18 @@ class Program:
 
     def _find_added_guards(self):
         from . import canon
-        ref = canon.reference_tests()
-        if not ref:
-            return
         dig = canon.load_table().get('__digests__', {})
         import hashlib
         jumps = (ast.Return, ast.Raise, ast.Continue, ast.Break)
+        ref = None
         for rel, tree in self.modules.items():
             if dig.get(rel) == hashlib.sha1(
                     self.sources[rel].encode()).hexdigest():
                 continue
+            if ref is None:
+                ref = canon.reference_tests()
+                if not ref:
+                    return
             for owner in ast.walk(tree):
                 for fld in ('body', 'orelse', 'finalbody'):
                     blk = getattr(owner, fld, None)
